@@ -30,14 +30,16 @@ ASSUMPTIONS = [
 
 
 def EXHAUSTIVE(tier):
-    return tier == "thorough"
+    return True
 
 
 EXHAUSTIVE_NOTE = (
-    "thorough: every day of one full 400-year Gregorian cycle and of a 28-year"
-    " block of each fixed-length calendar (all 7 mode spellings for the "
-    "blocks) is enumerated; quick enumerates every day of the listed years "
-    "only")
+    "thorough: every day of two full 400-year Gregorian cycles (chosen by the "
+    "seed), of 200 years of each fixed-length calendar and of a 28-year block "
+    "under each alias spelling is enumerated, with the TimePoint views checked"
+    " on every day; quick enumerates every day of one full 400-year Gregorian "
+    "cycle (chosen by the seed) and of a 28-year block of each fixed-length "
+    "calendar, plus the listed boundary years")
 
 QUICK_GREG_YEARS = sorted(set(
     list(range(-5, 6)) + [-401, -400, -399, -101, -100, -99, 1599, 1600, 1601,
@@ -53,27 +55,33 @@ QUICK_FIXED_YEARS = sorted(set(list(range(-4, 5)) + list(range(1996, 2011)) +
 def year_jobs(tier, seed):
     jobs = []
     if tier == "quick":
-        for y in QUICK_GREG_YEARS:
+        base = (-400, 0, 1600, 2000, 9600)[seed % 5]
+        for y in sorted(set(range(base, base + 400)) | set(QUICK_GREG_YEARS)):
             jobs.append(("gregorian", y))
         for m in ("360day", "365day", "366day"):
-            for y in QUICK_FIXED_YEARS:
+            for y in sorted(set(QUICK_FIXED_YEARS) | set(range(1990, 2018))):
                 jobs.append((m, y))
         for m in ("360_day", "365_day", "366_day"):
             for y in (-1, 0, 1999, 2000, 2004, 2005):
                 jobs.append((m, y))
     else:
-        base = (-400, 0, 1600, 2000, 9600)[seed % 5]
-        for y in range(base, base + 400):
+        bases = (-400, 0, 1600, 2000, 9600)
+        base = bases[seed % 5]
+        base2 = bases[(seed + 2) % 5]
+        greg = set(range(base, base + 400)) | set(range(base2, base2 + 400)) | \
+            set(QUICK_GREG_YEARS)
+        for y in sorted(greg):
             jobs.append(("gregorian", y))
-        for y in QUICK_GREG_YEARS:
-            if not base <= y < base + 400:
-                jobs.append(("gregorian", y))
         for m in R.MODE_SPELLINGS[1:]:
-            for y in range(1990, 2018):
+            span = range(1900, 2100) if "_" not in m else range(1990, 2018)
+            for y in span:
                 jobs.append((m, y))
             for y in (-29, -1, 0, 1, 9999, 10000):
                 jobs.append((m, y))
     return jobs
+
+
+ALL_VIEWS = [False]     # thorough: TimePoint views for every day
 
 
 def _lib():
@@ -160,7 +168,7 @@ def check_year(mode, y):
                           (c[1], c[2]) == (2, 29))
             if nontrivial:
                 keys.append("%s/%d/%d" % (cm, y, doy))
-            if nontrivial or doy % 5 == 0:
+            if nontrivial or doy % 5 == 0 or ALL_VIEWS[0]:
                 # TimePoint views of the same day, from each representation
                 pts = (
                     D.TimePoint(year=c[0], month_of_year=c[1],
@@ -237,6 +245,7 @@ def st_year():
 
 
 def run_shard(ctx):
+    ALL_VIEWS[0] = ctx.tier == "thorough"
     if ctx.index == 0:
         ctx.extra["refcal_selftest_days"] = R.self_test()
     jobs = year_jobs(ctx.tier, ctx.base_seed)
@@ -257,5 +266,5 @@ def run_shard(ctx):
                               "end": a if rev else a + k},
         st.sampled_from(R.MODE_SPELLINGS), st_year(),
         st.one_of(st.integers(0, 1200), st.integers(0, 30000)), st.booleans())
-    ctx.hyp(year_cases, check_case, 4 if quick else 40)
+    ctx.hyp(year_cases, check_case, 4 if quick else 60)
     ctx.hyp(range_cases, check_case, 150 if quick else 3000, seed_salt=1)
